@@ -76,6 +76,7 @@ class Result(object):
         self.terminals = {}      # outcome key -> [count, sample path]
         self.violations = []     # dicts
         self.samples = []        # (path, hashes) of complete executions
+        self.known = {}          # known finding 'what' -> violation dict
         self.error = None
 
     def merge(self, o):
@@ -91,6 +92,8 @@ class Result(object):
             else:
                 self.terminals[k] = [n, p]
         self.violations.extend(o.violations)
+        for k, v in o.known.items():
+            self.known.setdefault(k, v)
         for s in o.samples:
             if len(self.samples) < 6:
                 self.samples.append(s)
@@ -100,13 +103,14 @@ class Result(object):
 
 class Explorer(object):
     def __init__(self, scn, bound=2, deadline=None, max_states=None,
-                 prune=True, max_violations=1):
+                 prune=True, max_violations=1, known=None):
         self.scn = scn
         self.bound = bound
         self.deadline = deadline
         self.max_states = max_states
         self.prune = prune
         self.max_violations = max_violations
+        self.known = known       # callable(violation dict) -> what | None
         self.visited = {}
         self.res = Result()
         self.stop = False
@@ -125,12 +129,21 @@ class Explorer(object):
                                  keep_clock=self.scn.hash_clock)
 
     def _violation(self, path, msgs, kind):
+        """Returns True if something other than a known finding failed."""
+        new = False
         for m in msgs:
-            self.res.violations.append({
-                'scenario': self.scn.name, 'kind': kind, 'message': m,
-                'path': list(path)})
-        if len(self.res.violations) >= self.max_violations:
+            d = {'scenario': self.scn.name, 'kind': kind, 'message': m,
+                 'path': list(path)}
+            what = self.known(d) if self.known else None
+            if what is not None:
+                self.res.known.setdefault(what, d)
+                self.res.stats['known_finding_hits'] += 1
+                continue
+            self.res.violations.append(d)
+            new = True
+        if new and len(self.res.violations) >= self.max_violations:
             self.stop = True
+        return new
 
     def _capped(self, why):
         self.res.stats['cap_' + why] += 1
@@ -170,7 +183,10 @@ class Explorer(object):
                 t = env.next_clock_event()
                 if t is not None:
                     if t > self.scn.horizon_clock:
-                        self._capped('horizon_clock')
+                        if getattr(self.scn, 'horizon_is_terminal', False):
+                            self._terminal(path, hpath, snap)
+                        else:
+                            self._capped('horizon_clock')
                         return
                     env.set_clock(t)
                     path.append('T%d' % t)
@@ -225,9 +241,8 @@ class Explorer(object):
         ne, nm, nr = self._drain()
         ctx = Ctx(path, ne, nm, nr, False)
         viol = self.scn.check_step(pre, post, c, ctx)
-        if viol:
+        if viol and self._violation(path, viol, 'step'):
             hpath.append(None)
-            self._violation(path, viol, 'step')
             return False, post
         h = self._hash(post)
         hpath.append(h)
